@@ -100,6 +100,7 @@ class Emitter:
         self.dyn_cache = {}
         self._touch_cache = {}
         self.touched = set()   # (class, member) pairs that got a VB_TOUCH hook
+        self.thread_entries = {}   # class -> thread member -> [entry functions started on it]
         for (f, line, text) in unit.pp:
             parts = text.split()
             if parts[0] == '#undef' or (parts[0] == '#' and parts[1] == 'undef'):
@@ -668,6 +669,8 @@ class Emitter:
                 if fn[0] != 'id': raise EmitError('%s: std::thread entry must be a plain function name' % cx.fname)
                 m = self.final_overrider(cx.D, fn[1])
                 target = self.request(cx.D, m[0], m[1])
+                self.thread_entries.setdefault(cx.D, {}).setdefault(lt.replace('self->', ''), [])
+                if target not in self.thread_entries[cx.D][lt.replace('self->', '')]: self.thread_entries[cx.D][lt.replace('self->', '')].append(target)
                 return ('VB_THREAD_START(&%s, %s, self)' % (lt, target), None)
             raise EmitError('%s: unsupported thread assignment' % cx.fname)
         if op == '=' and lty is not None and self.member_kind(lty) == 'excptr':
@@ -979,7 +982,10 @@ class Emitter:
         cx.touch, cx.touch_log = saved
         pad = '    ' * ind
         hooks = ''.join(pad + '%s(%s, %s, %s);\n' % (('VB_TOUCH_W' if mode == 'w' else 'VB_TOUCH',) + t) for t, mode in own.items())
-        for t in own: self.touched.add((t[1], t[2]))
+        for t, mode in own.items():
+            self.touched.add((t[1], t[2]))
+            if not hasattr(cx, 'fn_touches'): cx.fn_touches = set()
+            cx.fn_touches.add((t[1], t[2], mode))
         return hooks + text
 
     def stmt1(self, s, cx, ind):
@@ -1523,6 +1529,9 @@ class Emitter:
         self.protos[fname] = proto
         self.order.append(fname)
         meta = dict(meta); meta['owner'] = owner
+        cx = getattr(self, 'cur_cx', None)
+        if cx is not None and getattr(cx, 'cname', None) == fname and getattr(cx, 'fn_touches', None):
+            meta['touches'] = sorted(list(t) for t in cx.fn_touches)
         self.fn_meta[fname] = meta
 
     def emit_method(self, fname, D, F, m):
